@@ -181,9 +181,9 @@ def classify(access, created, lines):
         obj = "file"
     elif has("(*GlobalNode)"):
         obj = "GlobalNode.locations"
-    if who != "main goroutine":
-        cf = " ".join(f[0] for f in created.get(who, []))
-        first = created.get(who, [["", ""]])[0][0] if created.get(who) else ""
+    first = created.get(who, [["", ""]])[0][0] if created.get(who) else ""
+    # the harness runs the analysis in a goroutine of its own (watchdog): that one is the analysis' main thread
+    if who != "main goroutine" and first != "main.main":
         if "InterProceduralFlowGraph).BuildGraph" in first:
             return "report-summaries-writer", obj
         if "funcutil.MapParallel" in first:
@@ -552,7 +552,7 @@ def run(chk):
             for s in known_symptoms[:40]:
                 f.write("  %s [%s]: %s\n" % s[:3])
             f.write("\nfirst race report / stack:\n%s\n\n" % next((s[3] for s in known_symptoms if s[3]), ""))
-            f.write("re-run:\n  GORACE='log_path=/tmp/c20race exitcode=0' %s -dir %s/analysis/taint/testdata/%s -reports /tmp/c20rep -runs 'rs;rs'\n"
+            f.write("re-run:\n  GORACE='log_path=/tmp/c20race exitcode=0' %s -dir %s -reports /tmp/c20rep -runs 'rs;rs'\n"
                     "  (binary built by: python3 tools/check.py C20; or cd harness && go build -race -tags verif -o ../build/bin-race/ ./cmd/c20racer)\n"
                     "the repair: proposed_fixes/C20-report-summaries.diff\n" % (os.path.join(binr, "c20racer"), progdir_of[p]))
         chk.violation(KNOWN_KEY, "report-summaries: detached writer goroutine races with BuildGraph step 3 / the visitor and the summaries "
